@@ -1,6 +1,6 @@
 """C17 - copyright documents and license texts survive dump and re-parse.
 
-Three kinds of case (plain JSON):
+Four kinds of case (plain JSON):
 
   {"kind": "doc", "input": "lines" | "stringio" | "noeol" | "bytes",
    "header": {"name": str, "contacts": [str], "source": value, "comment": value,
@@ -11,6 +11,22 @@ Three kinds of case (plain JSON):
       The document is built with Copyright(), the header properties, add_files_paragraph and
       add_license_paragraph in the given order, dumped, and read back in strict mode from the
       given input form (list of lines with or without line ends, file object, utf-8 bytes lines).
+
+  {"kind": "parsed", "input": ..., "header": {...}, "paras": [...], "more": [...]}   (same shapes)
+      The document object is obtained the other way: the harness writes header and "paras" out
+      itself (paragraphs in the generated order, so a stand-alone License paragraph may stand
+      before or between Files paragraphs - an arrangement the add_* methods never produce), one
+      field per generated value in raw deb822 form, ' .' for an empty license line, line-based
+      lists on one resp. several lines) and parses that in strict mode.  Demanded:
+        (a) the parsed object holds the written paragraphs in the written order (this only
+            establishes which document is under test; on the unchanged tree the written text is
+            byte for byte what dump() gives back - label parsed-doc:first-dump-equals-written-text -
+            but that equality is not demanded: the property speaks of dumped text only);
+        then the paragraphs of "more" are added through add_files_paragraph / add_license_paragraph
+        (order as their docstrings promise: after the last Files paragraph resp. at the end);
+        (b) dump() of this object parses back in strict mode to the same sequence of paragraphs
+            with the same contents;
+        (c) the dump of the re-parsed object is the identical text.
 
   {"kind": "codec", "lines": [str, ...]}
       format_multiline_lines / parse_multiline_as_lines, format_multiline / parse_multiline and
@@ -39,17 +55,26 @@ LEVEL = "exploration"
 RULE = ("cases are copyright documents (optional header fields incl. 1..3-element contact / "
         "exclusion lists and a header license; 0..5 Files paragraphs of 1..3 patterns, multi-line "
         "copyright value, License(synopsis, text), optional comment; stand-alone License "
-        "paragraphs; added in generated, mixed order) x 4 input forms for the re-parse; line lists "
+        "paragraphs; added in generated, mixed order) x 4 input forms for the re-parse; the same "
+        "ingredients (0..6 paragraphs of both kinds in ANY order, License paragraphs before and "
+        "between Files paragraphs) written out by the harness, parsed, in 1/3 of the cases extended "
+        "by 1..2 paragraphs through add_*, then dumped and re-parsed; line lists "
         "for the multi-line codec; item lists for the list-valued properties. License text lines "
         "are drawn from classes: empty, plain, indented, trailing blanks, leading '.', leading "
         "'#', field-/PGP-lookalikes, non-ASCII. Non-trivial = a document with a license text "
-        "holding both an empty and an indented line, or with paragraphs of both kinds; a codec "
+        "holding both an empty and an indented line, or with paragraphs of both kinds (parsed "
+        "documents: a License paragraph standing before a Files paragraph); a codec "
         "case with an empty line after the first and an indented or dot-led line; a list case "
         "with >=2 items; distinct = distinct canonical JSON of the case")
 ASSUMPTIONS = [
     "expected values are the generated ones (no model of the parser); the expected paragraph "
     "order follows the docstrings of add_files_paragraph (after the last Files paragraph) and "
     "add_license_paragraph (at the end)",
+    "parsed-document route: the text the harness writes (field order of the builder route, "
+    "'Name: value' / 'Name:' + newline-led value, one blank + line resp. ' .' for license text, "
+    "patterns joined by one blank, one empty line between paragraphs) is a valid copyright file "
+    "whose parse in strict mode yields the written values; that parse is checked (sig parsed:*), "
+    "equality of the first dump with the written text is only recorded as a label",
     "characters are limited to str.isprintable() plus TAB (DESIGN section 6: characters on which "
     "str.splitlines splits but '\\n'-based file iteration does not are outside the domain)",
     "texts are compared as newline-joined lines: one trailing newline of a license text and "
@@ -128,11 +153,8 @@ def same_text(got, want):
 # documents
 
 
-def valid_doc(case):
-    h = case.get("header", {})
-    if not isinstance(h, dict) or not isinstance(case.get("paras"), list):
-        return False
-    if case.get("input") not in ("lines", "stringio", "noeol", "bytes"):
+def valid_header(h):
+    if not isinstance(h, dict):
         return False
     for k, v in h.items():
         if k == "name":
@@ -147,7 +169,13 @@ def valid_doc(case):
             ok = False
         if not ok:
             return False
-    for p in case["paras"]:
+    return True
+
+
+def valid_paras(paras):
+    if not isinstance(paras, list):
+        return False
+    for p in paras:
         if not isinstance(p, list) or not p:
             return False
         if p[0] == "F" and len(p) == 5:
@@ -160,6 +188,11 @@ def valid_doc(case):
         else:
             return False
     return True
+
+
+def valid_doc(case):
+    return (valid_header(case.get("header", {})) and valid_paras(case.get("paras")) and
+            case.get("input") in ("lines", "stringio", "noeol", "bytes"))
 
 
 def lic(x):
@@ -186,18 +219,40 @@ def build(case):
         hd.files_excluded = list(h["excluded"])
     objs = []
     for p in case["paras"]:
-        if p[0] == "F":
-            o = C.FilesParagraph.create(list(p[1]), p[2], lic(p[3]))
-            if p[4] is not None:
-                o.comment = p[4]
-            doc.add_files_paragraph(o)
-        else:
-            o = C.LicenseParagraph.create(lic(p[1]))
-            if p[2] is not None:
-                o.comment = p[2]
-            doc.add_license_paragraph(o)
-        objs.append(o)
+        objs.append(add_paragraph(doc, p))
     return doc, objs
+
+
+def add_paragraph(doc, p):
+    if p[0] == "F":
+        o = C.FilesParagraph.create(list(p[1]), p[2], lic(p[3]))
+        if p[4] is not None:
+            o.comment = p[4]
+        doc.add_files_paragraph(o)
+    else:
+        o = C.LicenseParagraph.create(lic(p[1]))
+        if p[2] is not None:
+            o.comment = p[2]
+        doc.add_license_paragraph(o)
+    return o
+
+
+def held_order(kinds_held, kinds_added):
+    """Positions after add_files_paragraph ('directly after the last FilesParagraph') and
+    add_license_paragraph ('after any other paragraphs') calls on a document that holds
+    paragraphs of kinds kinds_held: list of indices into kinds_held + kinds_added."""
+    kinds = list(kinds_held) + list(kinds_added)
+    seq = list(range(len(kinds_held)))
+    for i in range(len(kinds_held), len(kinds)):
+        if kinds[i] == "F":
+            last = -1
+            for pos, j in enumerate(seq):
+                if kinds[j] == "F":
+                    last = pos
+            seq.insert(last + 1, i)
+        else:
+            seq.append(i)
+    return seq
 
 
 def expect_header(hd, h, where):
@@ -256,23 +311,26 @@ def expect_paragraph(o, p, where, what):
             raise Violation(where + ":comment", "%s: comment %r, built from %r" % (what, o.comment, p[2]))
 
 
-def reparse(text, form):
+def to_input(text, form):
+    """The text in one of the four input forms of Copyright(sequence)."""
     if form == "stringio":
-        seq = io.StringIO(text)
-    else:
-        lines = [l + "\n" for l in text.split("\n")[:-1]]
-        if "".join(lines) != text:
-            raise Violation("dump-not-newline-terminated", "dump ends with %r" % text[-20:])
-        if form == "noeol":
-            lines = [l[:-1] for l in lines]
-        elif form == "bytes":
-            lines = [l.encode("utf-8") for l in lines]
-        seq = lines
+        return io.StringIO(text)
+    lines = [l + "\n" for l in text.split("\n")[:-1]]
+    if "".join(lines) != text:
+        raise Violation("dump-not-newline-terminated", "dump ends with %r" % text[-20:])
+    if form == "noeol":
+        lines = [l[:-1] for l in lines]
+    elif form == "bytes":
+        lines = [l.encode("utf-8") for l in lines]
+    return lines
+
+
+def reparse(text, form, sig="dumped-text-rejected-in-strict-mode"):
+    seq = to_input(text, form)
     try:
         return C.Copyright(seq, strict=True)
     except (C.NotMachineReadableError, MRFE) as e:
-        raise Violation("dumped-text-rejected-in-strict-mode",
-                        "%s: %s on %s" % (type(e).__name__, e, short(text, 400)))
+        raise Violation(sig, "%s: %s on %s" % (type(e).__name__, e, short(text, 400)))
 
 
 def check_doc(case):
@@ -282,7 +340,7 @@ def check_doc(case):
     doc, objs = build(case)
 
     # order promised by the two add_* docstrings
-    order = [i for i, p in enumerate(paras) if p[0] == "F"] + [i for i, p in enumerate(paras) if p[0] == "L"]
+    order = held_order([], [p[0] for p in paras])
     built = list(doc.all_paragraphs())
     if not built or built[0] is not doc.header:
         raise Violation("built:paragraph-sequence", "all_paragraphs() does not start with the header")
@@ -328,6 +386,15 @@ def check_doc(case):
         labels.add("both-paragraph-kinds")
         if order != list(range(len(paras))):
             labels.add("files-paragraph-added-after-license-paragraph")
+    rich = content_labels(paras, h, labels)
+    if any(ord(ch) > 127 for ch in text):
+        labels.add("non-ascii")
+    nontrivial = rich or ("F" in kinds and "L" in kinds)
+    return (nontrivial, sorted(labels))
+
+
+def content_labels(paras, h, labels):
+    """Labels for the contents of header and paragraphs; True if some license text is rich."""
     lics = [p[3] if p[0] == "F" else p[1] for p in paras] + ([h["license"]] if "license" in h else [])
     rich = False
     for l in lics:
@@ -363,10 +430,7 @@ def check_doc(case):
     for k in ("contacts", "excluded"):
         if k in h:
             labels.add("header:%s=%s" % (k, "0" if not h[k] else "1" if len(h[k]) == 1 else "n"))
-    if any(ord(ch) > 127 for ch in text):
-        labels.add("non-ascii")
-    nontrivial = rich or ("F" in kinds and "L" in kinds)
-    return (nontrivial, sorted(labels))
+    return rich
 
 
 def line_class(l):
@@ -383,6 +447,135 @@ def line_class(l):
     if ":" in l or l.startswith("-----"):
         return "field-or-pgp-lookalike"
     return "plain"
+
+
+# ------------------------------------------------------------------------------------------
+# documents obtained by parsing: paragraphs in any order, optionally extended through the API
+
+
+def field(name, raw):
+    """One deb822 field; raw is the raw value (first line + continuation lines)."""
+    return "%s:%s%s\n" % (name, "" if raw == "" or raw[0] == "\n" else " ", raw)
+
+
+def raw_license(x):
+    """synopsis line, then every text line behind one blank, an empty line as ' .'"""
+    return "\n".join([x[0]] + [" " + (l if l != "" else ".") for l in text_lines(x[1])])
+
+
+def raw_items(items):
+    """line-based list: a single item on the field's own line, several on continuation lines"""
+    return items[0] if len(items) == 1 else "".join("\n " + e for e in items)
+
+
+def render(h, paras):
+    """The document as text: the fields in the order build() sets them, one empty line between
+    paragraphs, free-text values as they are (they are generated in raw deb822 form)."""
+    out = [field("Format", "https://www.debian.org/doc/packaging-manuals/copyright-format/1.0/")]
+    if "name" in h:
+        out.append(field("Upstream-Name", h["name"]))
+    if h.get("contacts"):
+        out.append(field("Upstream-Contact", raw_items(h["contacts"])))
+    if "source" in h:
+        out.append(field("Source", h["source"]))
+    if "comment" in h:
+        out.append(field("Comment", h["comment"]))
+    if "license" in h:
+        out.append(field("License", raw_license(h["license"])))
+    if "copyright" in h:
+        out.append(field("Copyright", h["copyright"]))
+    if h.get("excluded"):
+        out.append(field("Files-Excluded", raw_items(h["excluded"])))
+    for p in paras:
+        out.append("\n")
+        if p[0] == "F":
+            out.append(field("Files", " ".join(p[1])))
+            out.append(field("Copyright", p[2]))
+            out.append(field("License", raw_license(p[3])))
+        else:
+            out.append(field("License", raw_license(p[1])))
+        if p[-1] is not None:
+            out.append(field("Comment", p[-1]))
+    return "".join(out)
+
+
+def expect_sequence(doc, h, paras, where, text):
+    got = list(doc.all_paragraphs())
+    if len(got) != len(paras) + 1:
+        raise Violation(where + ":paragraph-count", "%d paragraphs expected, %d found; text %s"
+                        % (len(paras) + 1, len(got), short(text, 400)))
+    if got[0] is not doc.header:
+        raise Violation(where + ":paragraph-sequence", "all_paragraphs() does not start with the header")
+    expect_header(doc.header, h, where)
+    for k, p in enumerate(paras):
+        expect_paragraph(got[k + 1], p, where, "paragraph %d of %s" % (k + 1, short(text, 300)))
+    nf = sum(1 for p in paras if p[0] == "F")
+    if len(list(doc.all_files_paragraphs())) != nf or \
+            len(list(doc.all_license_paragraphs())) != len(paras) - nf:
+        raise Violation(where + ":paragraph-kind", "all_files/all_license_paragraphs disagree with all_paragraphs")
+    return got
+
+
+def check_parsed(case):
+    if not (valid_doc(case) and valid_paras(case.get("more", []))):
+        return (False, ("invalid-case-skipped",))
+    h, paras, more, form = case.get("header", {}), case["paras"], case.get("more", []), case["input"]
+
+    # (a) the document is obtained by parsing; it must be the one that was written
+    written = render(h, paras)
+    doc = reparse(written, form, "written-text-rejected-in-strict-mode")
+    held = expect_sequence(doc, h, paras, "parsed", written)
+
+    # ... and may be extended through the API
+    objs = held[1:] + [add_paragraph(doc, p) for p in more]
+    allp = paras + more
+    order = held_order([p[0] for p in paras], [p[0] for p in more])
+    now = list(doc.all_paragraphs())
+    if len(now) - 1 != len(order) or any(a is not objs[i] for a, i in zip(now[1:], order)):
+        got = [([i for i, o in enumerate(objs) if o is a] or ["?"])[0] for a in now[1:]]
+        raise Violation("parsed+added:paragraph-order",
+                        "parsed %s, then added %s: held in order %r, docstrings promise %r"
+                        % ("".join(p[0] for p in paras), "".join(p[0] for p in more), got, order))
+    expected = [allp[i] for i in order]
+    if more:
+        expect_sequence(doc, h, expected, "parsed+added", written)
+
+    # (b) its dump parses back to the same sequence of paragraphs
+    text = doc.dump()
+    if not isinstance(text, str):
+        raise Violation("dump-not-text", "dump() returned %r" % (text,))
+    buf = io.StringIO()
+    doc.dump(f=buf)
+    if buf.getvalue() != text:
+        raise Violation("dump-to-file-differs", "dump(f) wrote %s, dump() returned %s"
+                        % (short(buf.getvalue(), 200), short(text, 200)))
+    expect_sequence(doc, h, expected, "parsed-doc-after-dump", text)      # dumping changes nothing
+    doc2 = reparse(text, form)
+    expect_sequence(doc2, h, expected, "parsed-doc-reparsed", text)
+
+    # (c) and the dump of that one is the same text
+    text2 = doc2.dump()
+    if text2 != text:
+        raise Violation("second-dump-differs", "dump of a parsed document %s, dump of the re-parsed one %s"
+                        % (short(text, 300), short(text2, 300)))
+
+    labels = set(["parsed-doc", "input:" + form, "paragraphs:%d" % min(len(allp), 5),
+                  "parsed-doc:added-%d" % len(more)])
+    kinds = [p[0] for p in paras]
+    interleaved = "F" in kinds and "L" in kinds[:len(kinds) - 1 - kinds[::-1].index("F")]
+    if interleaved:
+        labels.add("parsed-doc:license-paragraph-before-files-paragraph")
+    if "F" in kinds and "L" in kinds:
+        labels.add("both-paragraph-kinds")
+    if not more:
+        # not demanded by the property (the written text is the harness's, not a dump); informative
+        labels.add("parsed-doc:first-dump-%s-written-text" % ("equals" if text == written else "differs-from"))
+    elif order != list(range(len(allp))):
+        labels.add("parsed-doc:files-paragraph-inserted-before-parsed-license-paragraph")
+    rich = content_labels(allp, h, labels)
+    if any(ord(ch) > 127 for ch in text):
+        labels.add("non-ascii")
+    return (interleaved or rich, sorted(labels))
 
 
 # ------------------------------------------------------------------------------------------
@@ -499,6 +692,8 @@ def check(case):
     k = case.get("kind")
     if k == "doc":
         return check_doc(case)
+    if k == "parsed":
+        return check_parsed(case)
     if k == "codec":
         return check_codec(case)
     if k == "list":
@@ -617,6 +812,17 @@ def gen_doc(draw):
                       for _ in range(draw(st.sampled_from([2, 1, 3, 0, 1, 2, 4, 5, 3])))]}
 
 
+@st.composite
+def gen_parsed(draw):
+    """A document to be written out and parsed: paragraphs of both kinds in any order."""
+    para = st.one_of(files_para, license_para)
+    return {"kind": "parsed",
+            "input": draw(st.sampled_from(["lines", "stringio", "noeol", "bytes"])),
+            "header": draw(gen_header()),
+            "paras": [draw(para) for _ in range(draw(st.sampled_from([3, 2, 4, 1, 0, 5, 6, 2, 3])))],
+            "more": [draw(para) for _ in range(draw(st.sampled_from([0, 0, 1, 2, 0, 0])))]}
+
+
 codec_first = st.one_of(core, st.just(""), st.sampled_from([" ", ".", "\t", " x", "x "]))
 
 
@@ -648,8 +854,10 @@ gen_list = st.one_of(
 def sources(tier):
     if tier == "quick":
         return [Hyp("documents", gen_doc(), 300, shards=8),
+                Hyp("parsed-documents", gen_parsed(), 200, shards=4),
                 Hyp("codec", gen_codec(), 900, shards=6),
                 Hyp("lists", gen_list, 500, shards=2)]
     return [Hyp("documents", gen_doc(), 6000, shards=16),
+            Hyp("parsed-documents", gen_parsed(), 2500, shards=8),
             Hyp("codec", gen_codec(), 8000, shards=8),
             Hyp("lists", gen_list, 4000, shards=4)]
